@@ -10,7 +10,8 @@ RULE = ("(a) exhaustive: chains of length 1..3 (quick) / 1..4 (thorough), with a
         "outer chain, after a history prefix of else-less ifs, early returns and breaks); (a2) break / continue / return taken from each branch kind of an inner chain in a loop "
         "(directly or in a called function) inside each branch kind of an outer chain that still has branches after it; "
         "(a3) chains whose conditions call a function that allocates enough to trigger a collection right after the condition, "
-        "in five contexts; (b) random structured programs. "
+        "in five contexts; (a4) chains whose taken branch calls a function that stacks 70..300 more conditionals (or recurses 70..300 deep) "
+        "before the chain's else is reached; (b) random structured programs. "
         "Output and end status are compared with the Lean model and with the structured big-step semantics of the tree. "
         "Non-trivial: the chain has an else or more than one condition.")
 ASSUMPTIONS = ["generated programs terminate; loops are counter-guarded"]
@@ -135,6 +136,31 @@ def cases(rng, tier, stats):
                         out.append(prog_case("working-condition", prog, info={"truths": truths, "else": has_else, "sizes": sizes, "template": k}))
                         n3 += 1
     stats["working_condition_cases"] = n3
+    # (a4) deep flag stacks (scale): while a taken branch of a chain that still has branches after it is running, a call
+    # stacks many more conditionals (a loop of else-less taken ifs; a break out of an if block per iteration; deep recursion
+    # from inside a taken branch) and returns: the chain's own flag is still the one its `অথবা` sees
+    n4 = 0
+    for depth in ((70, 300) if tier != "thorough" else (63, 64, 65, 70, 129, 300, 1000)):
+        many_ifs = ("func", "অনেক", ["ন"], [("decl", "i", G.num(0)), ("decl", "জ", G.num(0)),
+                                            ("loop", [("if", [(G.bin_(">=", G.var("i"), G.var("ন")), [("break",)])], None),
+                                                      ("assign", "i", [], G.bin_("+", G.var("i"), G.num(1))),
+                                                      ("if", [(G.b(True), [("assign", "জ", [], G.bin_("+", G.var("জ"), G.num(1)))])], None)]),
+                                            ("return", G.var("জ"))])
+        recur = ("func", "গভীর", ["ন"], [("if", [(G.bin_(">", G.var("ন"), G.num(0)), [("return", G.bin_("+", G.call("গভীর", G.bin_("-", G.var("ন"), G.num(1))), G.num(1)))])], None),
+                                          ("return", G.num(0))])
+        for fn, call in ((many_ifs, G.call("অনেক", G.num(depth))), (recur, G.call("গভীর", G.num(min(depth, 300))))):
+            for shape in range(3):
+                if shape == 0:
+                    ch = ("if", [(G.b(True), [("print", call)])], [("print", G.s("else"))])
+                elif shape == 1:
+                    ch = ("if", [(G.b(False), [("print", G.s("না"))]), (G.b(True), [("print", call)]), (G.b(True), [("print", G.s("তৃতীয়"))])], [("print", G.s("else"))])
+                else:
+                    ch = ("if", [(G.bin_(">", call, G.num(0)), [("print", G.s("হ্যাঁ"))])], [("print", G.s("else"))])
+                for k in (0, 2, 3):
+                    prog = [fn] + templates(ch, k) + [("print", G.s("শেষ"))]
+                    out.append(prog_case("deep-flag-stack", prog, info={"depth": depth, "shape": shape, "template": k}))
+                    n4 += 1
+    stats["deep_flag_stack_cases"] = n4
     # non-boolean condition
     for c in [G.num(1), G.s("x"), G.lst(), G.call("_টাইপ", G.num(1))]:
         out.append(prog_case("non-boolean-condition", [("print", G.s("a")), ("if", [(G.b(False), []), (c, [("print", G.s("b"))])], None), ("print", G.s("c"))]))
